@@ -25,6 +25,24 @@ def modifying_steps(prog, fn, sqlm):
     return out
 
 
+def internal_users_rule(prog, chk, rid="R4", primary=True):
+    a = c05.analysis(prog)
+    # ---------------- R4 internal users close what they open
+    r4 = chk.rule(rid + "-internal-users-close", "every library function that obtains an iterator from cif_loop_get_packets "
+                  "closes or aborts it exactly once on every path", floor=1, primary=primary)
+    users = [fn for fn in prog.all_functions() if fn.calls_to("cif_loop_get_packets") and fn.name not in txm.UNBALANCED]
+    if not users:
+        raise Broken("no internal user of cif_loop_get_packets found")
+    c05.check_balance(prog, chk, r4, only={f.name for f in users})
+    for fn in users:
+        itx = a.results.get(fn.key)
+        if itx:
+            for kind, line, st in itx.anomalies:
+                r4.violation(fn.file, fn.name, line, "anomaly:" + kind, "%s at L%s" % (kind, line))
+    chk.extra_cov["iterator_users"] = [f.key for f in users]
+
+
+
 def run(prog, chk):
     chk.level = "other"
     chk.explanation = ("Structural life-cycle of packet iterators decided on the CFGs of cif_loop_get_packets, "
@@ -206,19 +224,16 @@ def run(prog, chk):
         else:
             r3.violation(fn.file, fn.name, fn.line, "%s:ok-exits-released" % fn.name, "a CIF_OK exit is reached without a successful RELEASE")
 
-    # ---------------- R4 internal users close what they open
-    r4 = chk.rule("R4-internal-users-close", "every library function that obtains an iterator from cif_loop_get_packets "
-                  "closes or aborts it exactly once on every path", floor=1)
-    users = [fn for fn in prog.all_functions() if fn.calls_to("cif_loop_get_packets") and fn.name not in txm.UNBALANCED]
-    if not users:
-        raise Broken("no internal user of cif_loop_get_packets found")
-    c05.check_balance(prog, chk, r4, only={f.name for f in users})
-    for fn in users:
-        itx = a.results.get(fn.key)
-        if itx:
-            for kind, line, st in itx.anomalies:
-                r4.violation(fn.file, fn.name, line, "anomaly:" + kind, "%s at L%s" % (kind, line))
-    chk.extra_cov["iterator_users"] = [f.key for f in users]
+    internal_users_rule(prog, chk)
+
+    # ---------------- shared: the iterator's statements address one loop of one container (C04 R5); the names it hands out are
+    # validated as data names (C09 R6)
+    from . import c04, c09
+    c04.container_scoping_rule(prog, chk, rid="R6", primary=False)
+    r7 = chk.rule("R7-validator-matches-domain", "each name is (re-)validated by the normaliser of its own kind (shared with C09 R6)",
+                  primary=False, floor=8)
+    if c09.validator_domain(prog, r7) < 8:
+        raise Broken("fewer than 8 direct normaliser calls found")
 
     # ---------------- R5 hash iterations (a packet is delivered with a value for every item of the loop)
     r5 = chk.rule("R5-hash-iteration-intact", "no HASH_ITER body writes the iteration's look-ahead variable (next_packet moves every "
